@@ -189,7 +189,7 @@ func TestVerifC07PluginHistory(t *testing.T) {
 		capacityHolds := true
 		cycles := map[string]fwktype.CycleState{} // pods committed by Reserve whose scheduling cycle can still be rolled back
 		delivered := map[string]bool{}            // the informer has shown the pod bound
-		var sawDryRun, sawDryRun3, sawAliasShape, sawDesignated, sawDesignatedInterleaved, sawInterleaved, sawReserveRefusedAfterFilter, sawBindFailed, sawServed, sawRefused bool
+		var sawDryRun, sawDryRun3, sawAliasShape, sawDesignated, sawDesignatedInterleaved, sawInterleaved, sawReserveRefusedAfterFilter, sawBindFailed, sawServed, sawRefused, sawTombstone bool
 
 		// an event that changes the cache, delivered between Filter and Reserve of somebody else's cycle
 		interleave := func(t *rapid.T, sameAs c07Request, victimOf apiext.DeviceAllocations) (string, bool) {
@@ -229,10 +229,12 @@ func TestVerifC07PluginHistory(t *testing.T) {
 					return "nothing", false
 				}
 				p := w.live[rapid.SampledFrom(w.liveNames()).Draw(t, "deleted")]
-				w.cache.onPodDelete(p.Bound)
+				tomb := rapid.Bool().Draw(t, "tombstone")
+				w.cache.onPodDelete(c07DeleteEvent(p.Bound, tomb))
+				sawTombstone = sawTombstone || tomb
 				delete(w.live, p.Name)
 				delete(cycles, p.Name)
-				note("  meanwhile: podDelete " + p.Name)
+				note(fmt.Sprintf("  meanwhile: podDelete %s tombstone=%v", p.Name, tomb))
 				return kind, false
 			default: // a device goes away or turns unhealthy; prefer one the pending pod was going to use
 				var idx []int
@@ -490,8 +492,10 @@ func TestVerifC07PluginHistory(t *testing.T) {
 					pl.Unreserve(bg, cs, p.Sched, c07Node)
 					note("Unreserve " + p.Name + " (pod never bound)")
 				} else {
-					w.cache.onPodDelete(p.Bound)
-					note("podDelete " + p.Name)
+					tomb := rapid.Bool().Draw(t, "tombstone")
+					w.cache.onPodDelete(c07DeleteEvent(p.Bound, tomb))
+					sawTombstone = sawTombstone || tomb
+					note(fmt.Sprintf("podDelete %s tombstone=%v", p.Name, tomb))
 				}
 				delete(w.live, p.Name)
 				delete(cycles, p.Name)
@@ -545,6 +549,7 @@ func TestVerifC07PluginHistory(t *testing.T) {
 		c.ClassIf(sawDesignatedInterleaved, "designated+event-between-filter-and-reserve")
 		c.ClassIf(sawReserveRefusedAfterFilter, "reserve-refused-after-interleaved-event")
 		c.ClassIf(sawBindFailed, "unreserve-of-bound-pod-then-updates")
+		c.ClassIf(sawTombstone, "delete-delivered-as-tombstone")
 		c.ClassIf(sawServed, "some-request-served")
 		c.ClassIf(sawRefused, "some-request-refused")
 		c.ClassIf(capacityHolds, "no-capacity-loss(used<=total asserted throughout)")
